@@ -172,3 +172,15 @@ claim(
     "Generator paths are found by walking the object graph (depth 4); files live in a per-case temporary directory under $TMPDIR.",
     "Hypothesis model-based histories with round-trip + differential continuation oracle",
 )
+claim(
+    "C04",
+    "Generated-input search: (a) Bounds.reflect / reflect_momenta and the Gibbs boundary / non-negative proposals (driven through a stub "
+    "generator) against an exact rational triangle wave on the same floats - inside the closed limits, identity on the allowed region, "
+    "fold accuracy 8 eps, momentum factor (-1)^folds - for |lower| to 1e9, widths 1e-9..1e9 and overshoots to 1e6 widths; (b) model-based "
+    "histories: a dict model of limits in force under any order of set_boundaries / remove / set_non_negative calls (Gibbs, Metropolis) and "
+    "boxes given at construction (PCA, HMC with and without gradient, ensemble; starts on the walls; boxes far from the origin; proposal "
+    "scales up to 1e4 x the box), with a recording posterior and gradient: every evaluated point and every stored sample must lie inside the "
+    "closed limits in force; starts outside the box must raise ValueError.",
+    "Closed limits up to 4 eps max|limit|; limit-changing calls are generated only when the current value lies inside the new limits.",
+    "Hypothesis PBT (exact rational oracle) + model-based histories with recording callables",
+)
